@@ -33,9 +33,11 @@ RULE = ("Documents = 15 feature shapes (plain scenarios, outlines with 0-2 examp
         "name; all multisets of 2 (quick: on 12 documents; thorough: on all, and all multisets of 3) over {bare, 0, entity lines, entity "
         "lines +/-1}; two-file lists in grouped and interleaved order; the same through @listfile (other directory, "
         "relative entries, comments, blank lines, padding) and with absolute paths. Every selection is observed twice "
-        "(should_skip after parse_features; executed step functions + status after a real run) and compared with the "
-        "reference: entity starting at L, else nearest entity starting above L; 0/bare = all; union over locations; "
-        "unselected non-@setup/@teardown scenarios skipped. Name selection: each scenario name, its words and "
+        "(should_skip after parse_features; executed step functions + status after a real run). A single location "
+        "given as a plain argument is compared with the reference: entity starting at L, else nearest entity starting "
+        "above L; 0/bare = all; unselected non-@setup/@teardown scenarios skipped. Every other selection (several "
+        "locations, two files, absolute paths, @listfile) must select, per file, exactly the union of what its "
+        "locations select when given alone as plain arguments. Name selection: each scenario name, its words and "
         "substrings, ^name$, alternations and two --name options, on every document. FileLocationParser / "
         "FeatureListParser on name, name:N, name:0, padded. A selection is non-trivial (and counted distinct by "
         "(document, locations)) when it selects a non-empty proper subset of the document's scenarios.")
